@@ -211,10 +211,17 @@ Definition json_nat (j : option json) : res nat :=
   | None => Err ErrInternal                         (* KeyError *)
   end.
 
+(* an open depth: Slice.from_json refuses negative integers (ValueError) *)
+Definition json_depth (v : json) : res nat :=
+  match v with
+  | JInt z => if (z <? 0)%Z then Err ErrValue else Ok (Z.to_nat z)
+  | _ => json_nat (Some v)
+  end.
+
 Definition open_of_json (j : option json) : res nat :=
   match j with
   | None => Ok 0
-  | Some v => if truthy v then json_nat (Some v) else Ok 0
+  | Some v => if truthy v then json_depth v else Ok 0
   end.
 
 Definition slice_from_json (j : option json) : res slice :=
